@@ -672,8 +672,17 @@ func buildDistributedRule(P *Program, R *Report) {
 		}})
 	fa := &ForAll{P: P, Spec: ForAllSpec{Coll: is("arg#0"), Body: func(f *ssa.Function, l *Loop) *MustPass {
 		return &MustPass{Instr: func(_ *ssa.Function, i ssa.Instruction) bool {
-			st, ok := i.(*ssa.Store)
-			return ok && desc(st.Addr) == "makeslice[#i]" && desc(st.Val) == "call:invoke:gabi.ProofBuilder.CreateProof(arg#0[#i],arg#1)"
+			const created = "call:invoke:gabi.ProofBuilder.CreateProof(arg#0[#i],arg#1)"
+			if st, ok := i.(*ssa.Store); ok {
+				return desc(st.Addr) == "makeslice[#i]" && desc(st.Val) == created
+			}
+			// or appended, one per iteration of the full walk, to a list that starts empty (position i all the same)
+			if c, ok := i.(*ssa.Call); ok && isCallTo(c, "builtin:append") {
+				if t, okT := seqTail(callArgs(c)[1], 0, map[ssa.Value]bool{}); okT && len(t) == 1 && t[0].V != nil && desc(t[0].V) == created {
+					return startsEmpty(callArgs(c)[0])
+				}
+			}
+			return false
 		}}
 	}}}
 	m := fa.inFn(fn, AcceptNilErr(1))
@@ -694,6 +703,17 @@ func buildDistributedRule(P *Program, R *Report) {
 					for _, r := range referrersOf(c.Call.Value) {
 						if st, isSt := r.(*ssa.Store); isSt && st.Val == c.Call.Value && desc(st.Addr) == "makeslice[#i]" {
 							recvOK = true
+						}
+						// ... or appends to the list as this iteration's element
+						if ap, isAp := r.(*ssa.Call); isAp && isCallTo(ap, "builtin:append") {
+							recvOK = true
+						}
+						if sl, isSl := r.(*ssa.Store); isSl && sl.Val == c.Call.Value {
+							if ia, isIA := sl.Addr.(*ssa.IndexAddr); isIA {
+								if al, isAl := ia.X.(*ssa.Alloc); isAl && al.Comment == "varargs" {
+									recvOK = true // the variadic argument list of that append
+								}
+							}
 						}
 					}
 				}
@@ -717,4 +737,42 @@ func edgeCond(from, to *ssa.BasicBlock) []Atom {
 		return []Atom{{Fn: from.Parent(), V: iff.Cond, Want: False}}
 	}
 	return nil
+}
+
+// startsEmpty: the slice value is, outside the loop it is appended to in, an empty list (make with length 0, nil, or
+// an empty literal) - followed through the loop's phi.
+func startsEmpty(v ssa.Value) bool {
+	seen := map[ssa.Value]bool{}
+	var walk func(v ssa.Value) bool
+	walk = func(v ssa.Value) bool {
+		if seen[v] {
+			return true
+		}
+		seen[v] = true
+		switch x := v.(type) {
+		case *ssa.Phi:
+			for _, e := range x.Edges {
+				if !walk(e) {
+					return false
+				}
+			}
+			return true
+		case *ssa.Call:
+			if isCallTo(x, "builtin:append") {
+				return walk(callArgs(x)[0])
+			}
+			return false
+		case *ssa.MakeSlice:
+			n, ok := constInt(x.Len)
+			return ok && n == 0
+		case *ssa.Const:
+			return x.Value == nil
+		case *ssa.Slice:
+			if al, ok := x.X.(*ssa.Alloc); ok {
+				return strings.HasPrefix(typeStr(al.Type()), "*[0]")
+			}
+		}
+		return false
+	}
+	return walk(v)
 }
